@@ -279,6 +279,21 @@ theorem continue_released_no_timer (cfg : Cfg) (s : St) (hs : s.reqSent = false)
     (interimStep cfg s).readT = none ∧ (interimStep cfg s).wait100 = false ∧ (interimStep cfg s).wr = .parked := by
   unfold interimStep; simp [hs, hw, hp, hst, dropRead]
 
+/-- kernel-checked: overlapping phases with the peer stalled in both directions — the upload is parked
+in `drain()`, head and 6 body bytes arrive — (1) the caller leaves `async with` after its first chunk:
+ok at once, the writer task is cancelled, connection closed (body unread), slot freed;
+(2) the caller keeps reading and `total = 2 s` expires: `TimeoutError` at 2003 ms, same cleanup. -/
+example :
+    let c1 : Cfg := { wstall := true, early := true }
+    let s1 := observe c1 (run c1 (init false)
+      [(3, [.startR]), (13, [.connDone 0]), (103, [.bytes ⟨45, true, 6, false, false⟩])])
+    let c2 : Cfg := { wstall := true, total := some 2000 }
+    let s2 := observe c2 (run c2 (init false)
+      [(3, [.startR]), (13, [.connDone 0]), (103, [.bytes ⟨45, true, 6, false, false⟩])])
+    (s1.pc = .done .ok 103 ∧ s1.wr = .cancelled ∧ s1.slot = .none ∧ s1.tr = .closed ∧ s1.pooled = false) ∧
+    (s2.pc = .done .timeout 2003 ∧ s2.wr = .cancelled ∧ s2.slot = .none ∧ s2.tr = .closed) := by
+  decide +kernel
+
 /-! ## others are unaffected -//-! ## others are unaffected -/
 
 /-- what R's own transitions may do to the co-request and the shared lookup: nothing, or
